@@ -28,7 +28,9 @@ META = {
             "mujoco wheel (3.13.0), not from this tree's header; the run compares the wheel's enum with the table regenerated from the header "
             "and reports a broken tie when they differ.  NOT PROVED (support oracles on implementation output only): jax.jit / jax.vmap "
             "transparency (a property of JAX tracing, not of MuJoCo code a Gallina model can express), put_data -> get_data field mapping, "
-            "make_data vs put_data of a fresh MjData.  NOT COVERED: plugin state (no plugin model can be built), warp / C++ back ends.",
+            "make_data vs put_data of a fresh MjData (same treedef, shapes, dtypes up to jax's int width for contact.geom, equal values on every leaf except the padding of "
+            "INACTIVE contact slots, and forward() of both is identical; OBSERVATION recorded in the evidence: make_data pads contact.dist with 0 and contact.geom with -1 "
+            "where put_data pads with 1e10 and 0; only active contacts are compared).  NOT COVERED: plugin state (no plugin model can be built), warp / C++ back ends.",
     "note": "Trusted: Coq kernel; translate/mjxstate2v.py and translate/state2v.py (fail-closed readers); hand-written loop models "
             "Model/MjxState.v and Model/StateAPI.v; python driver c44_mjx.py with its own list of the 14 state fields; jax/numpy and the "
             "mujoco wheel 3.13.0 as the library MJX imports (MjModel container, XML parser, mjtState enum). Theorems closed under the global context.",
@@ -196,10 +198,13 @@ def run_py(ctx, mode, req, timeout):
         return None, "unparsable output: " + r.stdout[-300:] + r.stderr[-500:]
 
 
-LAWS = {1: "length returned by get_state != state_size", 2: "set_state(get_state(d)) does not restore exactly the components of the signature",
-        4: "get_state after set_state does not return the vector", 64: "get_state does not return the components of the signature in bit order",
-        32: "source Data modified by get_state/set_state"}
-THM = {1: "C44_size_get", 2: "C44_set_get", 4: "C44_get_set", 32: "C44_set_get", 64: "C44_agrees_with_C"}
+LAWS = {1: "length returned by get_state == state_size",
+        2: "set_state(get_state(d)) restores exactly the components of the signature and leaves every other field",
+        4: "get_state after set_state returns the vector (entries of bool components as x != 0)",
+        64: "get_state returns the components of the signature in bit order",
+        32: "get_state / set_state leave the source Data untouched",
+        128: "no function of the state API raises on a valid signature"}
+THM = {1: "C44_size_get", 2: "C44_set_get", 4: "C44_get_set", 32: "C44_set_get", 64: "C44_agrees_with_C", 128: "C44_mjx_round_trip"}
 
 
 def run(ctx):
@@ -315,7 +320,7 @@ def run(ctx):
                 seen[bit] = seen.get(bit, 0) + 1
                 ctx.violation("impl_violation", {"model": c["mid"], "mjcf": MODELS[c["mid"]], "dims": dims[c["mid"]], "sig": c["sig"],
                                                  "vector_seed": c["seed"], "vector_type": "jax" if c.get("jaxvec") else "numpy"},
-                              expected="law holds: " + txt, observed="law fails on the output of the working tree's mjx functions (driver c44_mjx.py)",
+                              expected=txt, observed="fails on the output of the working tree's mjx functions (driver c44_mjx.py)" + ((": " + o["exc"]) if o.get("exc") else ""),
                               theorem=THM[bit], signature={"site": "mjx state API", "law": bit})
 
     # ---------------------------------------------------------------- model evaluation in Coq
